@@ -7,6 +7,7 @@ pub fn register(v: &mut Vec<(&'static str, crate::Harness)>) {
     v.push(("h_probe_parse", h_probe_parse));
     v.push(("h_probe_tostring", h_probe_tostring));
     v.push(("h_probe_html", h_probe_html));
+    v.push(("h_probe_bytes", h_probe_bytes));
 }
 
 pub fn h_probe_tree() {
@@ -61,4 +62,18 @@ pub fn h_probe_html() {
     let s = xot.html5().to_string(el).unwrap();
     sym::emit_str("out", &s);
     sym::check("starts", s.starts_with("<!DOCTYPE html>"));
+}
+
+pub fn h_probe_bytes() {
+    let mut xot = Xot::new();
+    let n = sym::choose("len", 6);
+    let mut v: Vec<u8> = Vec::new();
+    const NAMES: [&str; 5] = ["b0", "b1", "b2", "b3", "b4"];
+    for i in 0..n {
+        v.push(sym::any_u8(NAMES[i]));
+    }
+    match xot.parse_bytes(&v) {
+        Ok(_) => sym::cover("parsed"),
+        Err(_) => sym::cover("rejected"),
+    }
 }
